@@ -1,4 +1,6 @@
 """C35 — macro namespaces: lookup chain order, local-state stack pairing, local vs module installation, core-shadow warning, require's name handling."""
+CANON = True
+
 import ast
 
 from .. import compq, pyq
